@@ -139,7 +139,7 @@ func c03ABI(c *core.Ctx) {
 	T := []int{1, 3, 12, 30}[c.R.Intn(4)]
 	wc := 0
 	if needsWidthClass(model) {
-		wc = 1 + c.R.Intn(13)
+		wc = widthClassFor(c.R, N)
 	}
 	run := GenRun(model, c.R, N, P, B, T, wc)
 	mode := c.R.Intn(3) // 0: caller states, 1: initStates with states pointer, 2: initStates with NULL states
